@@ -147,6 +147,32 @@ Section LinkOk.
     rewrite (unlink_ok _ _ _ Ctmp E3 Hna). reflexivity.
   Qed.
 
+  (* the same three calls issued one after the other (what `mv; ln; rm` do) end in the same state *)
+  Lemma calls_safe_remove_ok (f : call) (s3 : fs) :
+    do_call None f s1 = (ROk, s3) -> names s3 tmp = Some na ->
+    snd (nat_call (Unlink tmp) (snd (nat_call f (snd (nat_call (Rename a tmp) s))))) = set_name s3 tmp None.
+  Proof.
+    intros Hf E3.
+    change (nat_call (Rename a tmp) s) with (do_call None (Rename a tmp) s). rewrite lk_rename. cbn [snd].
+    change (nat_call f s1) with (do_call None f s1). rewrite Hf. cbn [snd].
+    change (nat_call (Unlink tmp) s3) with (do_call None (Unlink tmp) s3).
+    rewrite (unlink_ok _ _ _ Ctmp E3 Hna). reflexivity.
+  Qed.
+  Lemma hardlink_call_ok : names s t = Some nt -> nt <> NDir ->
+    do_call None (Link t a) s1 = (ROk, set_name s1 a (Some nt)) /\ names (set_name s1 a (Some nt)) tmp = Some na.
+  Proof.
+    intros Et Hnt. split.
+    - apply link_ok; auto using lk_s1_a, lk_s1_dir. rewrite lk_s1_t. exact Et.
+    - pose proof lk_atmp. nsimp. unfold s1. now nsimp.
+  Qed.
+  Lemma softlink_call_ok :
+    do_call None (Symlink t a) s1 = (ROk, set_name s1 a (Some (NLink t))) /\ names (set_name s1 a (Some (NLink t))) tmp = Some na.
+  Proof.
+    split.
+    - apply symlink_ok; auto using lk_s1_a, lk_s1_dir.
+    - pose proof lk_atmp. nsimp. unfold s1. now nsimp.
+  Qed.
+
   Lemma ev_hardlink sl : names s t = Some nt -> nt <> NDir -> lock_ok sl s a ->
     ev (prog_of sl (FHardLink t a tmp)) s = (set_name (set_name s1 a (Some nt)) tmp None, IOk).
   Proof.
